@@ -40,6 +40,15 @@ def mk(run, cfg):
         add['bidoffer'] = frame(run, dts, cols, lambda i, c: SPREAD[c])
     if shape == 'flat':
         s = B.Strategy('s', [A.RunDaily(), A.SelectAll(), A.WeighSpecified(**cfg['w']), A.Rebalance()])
+    elif shape == 'closeearly':
+        # ticker b is held by both sub-strategies; one of them drops it on the second date and stays idle in it afterwards
+        tw1 = pd.DataFrame({'a': [0.5, 0.5, 0.5, 0.5], 'b': [0.5, 0.0, 0.0, 0.0]}, index=dts)
+        k1 = B.Strategy('k1', [A.RunDaily(), A.WeighTarget(tw1), A.Rebalance()], ['a', 'b'])
+        k2 = B.Strategy('k2', [A.RunDaily(), A.SelectThese(['b']), A.WeighSpecified(b=0.75), A.Rebalance()], ['b'])
+        s = B.Strategy('s', [A.RunDaily(), A.WeighSpecified(k1=0.5, k2=0.375), A.Rebalance()], [k1, k2])
+    elif shape == 'flat_closeearly':
+        tw = pd.DataFrame({'a': [0.5, 0.5, 0.5, 0.5], 'b': [0.25, 0.0, 0.0, 0.0], 'c': [0.0, 0.0, 0.25, 0.0]}, index=dts)
+        s = B.Strategy('s', [A.RunDaily(), A.WeighTarget(tw), A.Rebalance()])
     elif shape == 'notrades':
         s = B.Strategy('s', [A.RunDaily(), A.SelectAll()])
     elif shape == 'nested':
@@ -235,7 +244,42 @@ def h_replay(run, cfg):
         run.check_near(t2.strategy.values[d], st.values[d], EPS_MONEY, 'replay-reproduces-values', str(d))
 
 
-HARNESSES = {'reports': h_reports, 'replay': h_replay}
+def h_replay_blotter(run, cfg):
+    """a blotter with arbitrary execution prices (one of them exactly 0.0) replayed through ReplayTransactions: positions are the cumulated
+    quantities and cash is initial capital minus sum of q * execution price * multiplier"""
+    B = bt()
+    A = B.algos
+    C = B.core
+    dts = dates(4)
+    data = frame(run, dts, ['a', 'b'], lambda i, c: PR[c][i])
+    q1 = run.real('q1', 1, 500)
+    q2 = run.real('q2', 1, 500)
+    rows = [(dts[0], 'a', q1, 99.5), (dts[1], 'b', q2, 0.0), (dts[1], 'a', -0.5 * q1 if run.mode == 'conc' else q1 * -0.5, 106.0), (dts[3], 'b', 7.0, 40.5)]
+    idx = pd.MultiIndex.from_tuples([(r[0], r[1]) for r in rows], names=['Date', 'Security'])
+    tx = pd.DataFrame({'quantity': [r[2] for r in rows], 'price': [r[3] for r in rows]}, index=idx)
+    if run.mode == 'sym':
+        tx = tx.astype(object)
+    mult = {'a': 1.0, 'b': 10.0}
+    s2 = B.Strategy('replay', [A.ReplayTransactions('tx')], [C.Security('a'), C.Security('b', multiplier=10.0)])
+    add = {'tx': tx, 'bidoffer': frame(run, dts, ['a', 'b'], lambda i, c: 0.0)}
+    cap = 10 ** 6
+    t2 = B.Backtest(s2, data, initial_capital=float(cap), integer_positions=False, additional_data=add)
+    t2.run()
+    st = t2.strategy
+    for i, d in enumerate(dts):
+        exp_pos = {'a': 0.0, 'b': 0.0}
+        cash = float(cap)
+        for (dd, n, q, px) in rows:
+            if dd <= d:
+                exp_pos[n] = exp_pos[n] + q
+                cash = cash - q * px * mult[n]
+        for n in ('a', 'b'):
+            run.check_near(st[n].positions[d], exp_pos[n], 1e-9, 'replay-reproduces-positions', '%s @%s' % (n, d))
+        run.check_near(st.cash[d], cash, EPS_MONEY, 'replay-books-execution-prices', str(d))
+        run.check_near(st.values[d], cash + exp_pos['a'] * PR['a'][i] + exp_pos['b'] * PR['b'][i] * 10.0, EPS_MONEY, 'replay-reproduces-values', str(d))
+
+
+HARNESSES = {'reports': h_reports, 'replay': h_replay, 'replay_blotter': h_replay_blotter}
 WITNESS_CAP = {'quick': 60, 'thorough': 200}
 
 
@@ -253,6 +297,8 @@ def plan(tier):
         tasks.append(dict(harness='reports', cfg=dict(shape='nested', spread=spread), opts=opts))
     for spread in (0, 1):
         tasks.append(dict(harness='reports', cfg=dict(shape='nested_lazy', spread=spread), opts=opts))
+        tasks.append(dict(harness='reports', cfg=dict(shape='closeearly', spread=spread), opts=opts))
+        tasks.append(dict(harness='reports', cfg=dict(shape='flat_closeearly', spread=spread), opts=opts))
     tasks.append(dict(harness='reports', cfg=dict(shape='fi', spread=0, capgrid=1, cap=0.0), opts=opts))
     if not quick:
         tasks.append(dict(harness='reports', cfg=dict(shape='flat', w=dict(a=0.625, b=0.25), spread=0, symlast=1, capgrid=1), opts=opts))
@@ -260,4 +306,5 @@ def plan(tier):
     for spread in (0, 1):
         tasks.append(dict(harness='replay', cfg=dict(shape='flat', w=dict(a=0.625, b=0.25), spread=spread), opts=opts))
         tasks.append(dict(harness='replay', cfg=dict(shape='flat', w=dict(a=0.5, b=-0.25, c=0.5), spread=spread), opts=opts))
+    tasks.append(dict(harness='replay_blotter', cfg={}, opts=opts))
     return tasks
